@@ -40,36 +40,78 @@ func (st *c12State) eventCaps() map[string][]string {
 	if nw == nil {
 		return out
 	}
-	info := nw.Pkg.TypesInfo
-	ast.Inspect(nw.Decl.Body, func(n ast.Node) bool {
-		ts, ok := n.(*ast.TypeSwitchStmt)
-		if !ok {
-			return true
+	// the switch may stand in New itself or in a helper of the package that New hands the received event to
+	// (the switch operand is then a parameter of the helper); helpers are followed two levels deep
+	visited := map[*FuncInfo]bool{}
+	var scan func(fi *FuncInfo, depth int)
+	scan = func(fi *FuncInfo, depth int) {
+		if fi == nil || fi.Decl.Body == nil || visited[fi] {
+			return
 		}
-		for _, cl := range ts.Body.List {
-			cc := cl.(*ast.CaseClause)
-			var flags []string
-			for _, s := range cc.Body {
-				ast.Inspect(s, func(m ast.Node) bool {
-					if as, ok := m.(*ast.AssignStmt); ok && len(as.Lhs) == 1 && len(as.Rhs) == 1 {
-						p := canonPath(info, as.Lhs[0])
-						if strings.HasPrefix(p, "Vaxis.caps.") {
-							if tv := info.Types[as.Rhs[0]]; tv.Value != nil && tv.Value.String() == "true" {
-								flags = append(flags, strings.TrimPrefix(p, "Vaxis.caps."))
-							}
-						}
-					}
-					return true
-				})
+		visited[fi] = true
+		info := fi.Pkg.TypesInfo
+		params := map[types.Object]bool{}
+		for _, f := range fi.Decl.Type.Params.List {
+			for _, n := range f.Names {
+				params[info.Defs[n]] = true
 			}
-			for _, e := range cc.List {
-				if t := info.TypeOf(e); t != nil {
-					out[typeName(t)] = append(out[typeName(t)], flags...)
+		}
+		ast.Inspect(fi.Decl.Body, func(n ast.Node) bool {
+			if call, ok := n.(*ast.CallExpr); ok && depth < 2 {
+				if fn := calleeOf(info, call); fn != nil {
+					if cf := st.c.P.FuncOfObj(fn); cf != nil && cf.Pkg == nw.Pkg {
+						scan(cf, depth+1)
+					}
+				}
+				return true
+			}
+			ts, ok := n.(*ast.TypeSwitchStmt)
+			if !ok {
+				return true
+			}
+			if depth > 0 {
+				var operand ast.Expr
+				switch a := ts.Assign.(type) {
+				case *ast.AssignStmt:
+					if ta, ok := unparen(a.Rhs[0]).(*ast.TypeAssertExpr); ok {
+						operand = ta.X
+					}
+				case *ast.ExprStmt:
+					if ta, ok := unparen(a.X).(*ast.TypeAssertExpr); ok {
+						operand = ta.X
+					}
+				}
+				id, isId := unparen(operand).(*ast.Ident)
+				if !isId || !params[info.ObjectOf(id)] {
+					return true
 				}
 			}
-		}
-		return true
-	})
+			for _, cl := range ts.Body.List {
+				cc := cl.(*ast.CaseClause)
+				var flags []string
+				for _, s := range cc.Body {
+					ast.Inspect(s, func(m ast.Node) bool {
+						if as, ok := m.(*ast.AssignStmt); ok && len(as.Lhs) == 1 && len(as.Rhs) == 1 {
+							p := canonPath(info, as.Lhs[0])
+							if strings.HasPrefix(p, "Vaxis.caps.") {
+								if tv := info.Types[as.Rhs[0]]; tv.Value != nil && tv.Value.String() == "true" {
+									flags = append(flags, strings.TrimPrefix(p, "Vaxis.caps."))
+								}
+							}
+						}
+						return true
+					})
+				}
+				for _, e := range cc.List {
+					if t := info.TypeOf(e); t != nil {
+						out[typeName(t)] = append(out[typeName(t)], flags...)
+					}
+				}
+			}
+			return true
+		})
+	}
+	scan(nw, 0)
 	return out
 }
 
@@ -135,7 +177,17 @@ func (st *c12State) postedEvents(p *c12Path, posts map[*types.Func]bool) []strin
 	var out []string
 	for _, cl := range p.Calls {
 		if cl.Fn != nil && posts[cl.Fn] && len(cl.ArgTypes) == 1 {
-			out = append(out, typeName(cl.ArgTypes[0]))
+			// the dynamic type of the value posted (an event may travel through an interface-typed local)
+			t := cl.ArgTypes[0]
+			if len(cl.Args) == 1 {
+				switch v := cl.Args[0].(type) {
+				case *c12Struct:
+					t = v.Typ
+				case c12Conv:
+					t = v.Typ
+				}
+			}
+			out = append(out, typeName(t))
 		}
 	}
 	return out
